@@ -247,7 +247,7 @@ func runHistory(h History) (rep Report) {
 	}
 	setPhase("read-back: entries kept beside the children (Augments, Augmented, Deviations, Deviate, Uses, groupings)")
 	main := w.n
-	w.sideMode = true
+	w.sideMode, w.mainNodes = true, main
 	for len(rb.side) > 0 {
 		e := rb.side[len(rb.side)-1]
 		rb.side = rb.side[:len(rb.side)-1]
@@ -300,19 +300,23 @@ func walkStmt(s *yang.Statement) int {
 }
 
 type walker struct {
-	seen     map[*yang.Entry]bool
-	n        int
-	cyclic   string
-	maxDepth int
-	seenT    map[*yang.YangType]bool
-	rb       *readback
-	sideMode bool // walking entries kept beside the children: meeting a known entry again is expected
+	seen      map[*yang.Entry]bool
+	n         int
+	cyclic    string
+	maxDepth  int
+	seenT     map[*yang.YangType]bool
+	rb        *readback
+	sideMode  bool // walking entries kept beside the children: meeting a known entry again is expected
+	mainNodes int
 }
 
-// fullNodes: the reflective read-back with the whole Find pool runs on the first so many entries
-// of a history (and on those the heavy rule picks); past that every accessor is still called on
-// every entry, Find with a short pool and nothing that writes.
+// fullNodes: the reflective read-back runs on the first so many entries of a history, where the
+// heavy rule holds (an accessor that walks to the root, like Path, costs the square of the depth: on
+// every entry down to depth 150, below that on every 500th level and on every entry without
+// children); the fixed calls below are made on every entry.  maxSideNodes bounds the walk over the
+// entries kept beside the children (a chain of k groupings has k^2/2 grouping entries).
 const fullNodes = 20000
+const maxSideNodes = 60000
 
 // heavyAt decides where the calls whose own cost grows with the square of the depth (Path and
 // Find with the node's own path build a string per ancestor) are made: on every node down to depth
@@ -335,7 +339,7 @@ func (w *walker) walk(e *yang.Entry, depth int) (height int) {
 	}
 	w.seen[e] = true
 	w.n++
-	if w.n > maxWalkNodes {
+	if w.n > maxWalkNodes || (w.sideMode && w.n-w.mainNodes > maxSideNodes) {
 		return writeHeight + 1
 	}
 	if depth > w.maxDepth {
@@ -352,7 +356,9 @@ func (w *walker) walk(e *yang.Entry, depth int) (height int) {
 	_, _ = e.SingleDefaultValue()
 	w.readType(e.Type, 0)
 	// every exported accessor, by reflection (readback.go)
-	w.rb.entry(e, depth, w.n <= fullNodes && heavyAt(e, depth))
+	if w.n <= fullNodes && heavyAt(e, depth) {
+		w.rb.entry(e, depth, true)
+	}
 	// Find: own path, a bogus path, relative paths
 	if heavyAt(e, depth) {
 		p := e.Path()
